@@ -177,7 +177,7 @@ fn emit(sh: &mut Shards, st: &mut Stats, it: &Item, co: &ChildObs) {
 
 fn corpus_items(o: &Opts) -> Vec<Item> {
     let mut items = Vec::new();
-    let builtin: [(&str, bool); 24] = [
+    let builtin: [(&str, bool); 27] = [
         ("2024/01/01 x", true),                               // F3: last line without newline
         ("2024/01/01 x\n  A  1 USD\n  B", true),              // F3
         ("2024/01/01 x\n  A  1 USD\n  B ; c", true),
@@ -190,9 +190,12 @@ fn corpus_items(o: &Opts) -> Vec<Item> {
         ("   ", true),
         ("2024/01/01 x\n  A  ((((1))))\n", true),
         ("2024/01/01\n", true),
-        ("2024/01/01;c\n", false),                             // documented, not read (finding)
-        ("2024/01/01 x\n  A  1 USD ()\n", false),              // documented empty lot note, not read
-        ("2024/01/01 x\n  A  (1-2)\n", false),                 // documented, not read
+        ("2024/01/01;c\n", true),                              // was not read (fixed 7e9ec2a)
+        ("2024/01/01 x\n  A  1 USD ()\n", true),               // empty lot note was not read (fixed 665189b)
+        ("2024/01/01 x\n  A  (1-2)\n", true),                  // was one invalid number (fixed f8c7ec3)
+        ("2024/01/01 x\n  A  (1- 2 * 3-4)\n", true),
+        ("2024/01/01 x\n  \u{3000}  1 USD\n  B\n", false),     // blank account: format output did not re-parse (fixed 00d550a)
+        ("2024/01/01 x\n \t\u{b} \t; :a:\n", false),
         ("2024/01/01 (abc\n  A  1 USD\n", false),
         ("2024/01/01 x\r  A\n", false),                        // lone CR
         ("2024/01/01 x ; :a: rest\n", false),
